@@ -103,21 +103,40 @@ Qed.
 Lemma rest_ok ws : forall n i s ks, (1 <= i)%nat -> (i + n = length ws)%nat -> length ks = n ->
   (forall t, (t < length ws)%nat -> phrase ws t <> []) -> Dec ws i s ->
   (forall t, (t < n)%nat -> code_ok ws (i + t) (nth t ks 0)) ->
-  feed_all s ks = Some (concat (skipn i ws)).
+  exists s_end, forall rest, feed_all s (ks ++ rest) = option_map (app (concat (skipn i ws))) (feed_all s_end rest).
 Proof.
   induction n as [|n IH]; intros i s ks Hi Hm Hl Hne HD Hc.
-  - destruct ks; [|discriminate]. rewrite skipn_all2 by lia. reflexivity.
-  - destruct ks as [|k ks]; [discriminate|]. cbn [feed_all].
+  - destruct ks; [|discriminate]. exists s. intros rest. rewrite skipn_all2 by lia. cbn [app concat].
+    destruct (feed_all s rest); reflexivity.
+  - destruct ks as [|k ks]; [discriminate|].
     destruct (step_ok ws i s k Hi (Hne (i - 1)%nat ltac:(lia)) HD) as (s' & E & HD').
     { specialize (Hc 0%nat ltac:(lia)). rewrite Nat.add_0_r in Hc. exact Hc. }
-    rewrite E. rewrite (IH (S i) s' ks); try lia; try assumption.
-    + cbn [option_map]. f_equal.
+    destruct (IH (S i) s' ks) as (s_end & Hend); try lia; try assumption.
+    + cbn in Hl. lia.
+    + intros t Ht. specialize (Hc (S t) ltac:(lia)). replace (S i + t)%nat with (i + S t)%nat by lia. exact Hc.
+    + exists s_end. intros rest. cbn [app feed_all]. rewrite E, Hend.
       assert (Hsk : skipn i ws = phrase ws i :: skipn (S i) ws).
       { unfold phrase. clear -Hm. revert i Hm. induction ws as [|w ws IHw]; intros i Hm; [cbn in Hm; lia|].
         destruct i; [reflexivity|]. cbn [skipn nth]. apply IHw. cbn in Hm. lia. }
-      rewrite Hsk. reflexivity.
-    + cbn in Hl. lia.
-    + intros t Ht. specialize (Hc (S t) ltac:(lia)). replace (S i + t)%nat with (i + S t)%nat by lia. exact Hc.
+      rewrite Hsk. cbn [concat]. destruct (feed_all s_end rest); cbn [option_map]; [rewrite app_assoc|]; reflexivity.
+Qed.
+
+(* one segment, from ANY decoder state (the clear-table code resets it), followed by anything *)
+Lemma segment_decodes ws ks s : length ks = length ws -> (forall t, (t < length ws)%nat -> phrase ws t <> []) ->
+  (forall t, (t < length ws)%nat -> code_ok ws t (nth t ks 0)) ->
+  exists s_end, forall rest, feed_all s (256 :: ks ++ rest) = option_map (app (concat ws)) (feed_all s_end rest).
+Proof.
+  intros Hl Hne Hc.
+  assert (Eclr : lzw_feed s 256 = FeedOk [] (mkZ clear_table (Some []) 9)) by reflexivity.
+  destruct ws as [|w ws'].
+  - destruct ks; [|discriminate]. exists (mkZ clear_table (Some []) 9). intros rest. cbn [feed_all app]. rewrite Eclr.
+    cbn [concat]. destruct (feed_all _ rest); reflexivity.
+  - destruct ks as [|k ks']; [discriminate|].
+    destruct (first_ok (w :: ws') k (Hc 0%nat ltac:(cbn; lia))) as (s' & E & HD).
+    destruct (rest_ok (w :: ws') (length ws') 1 s' ks') as (s_end & Hend); try (cbn in *; lia); try assumption.
+    + intros t Ht. exact (Hc (S t) ltac:(cbn; lia)).
+    + exists s_end. intros rest. cbn [feed_all app]. rewrite Eclr, E, Hend. cbn [skipn concat].
+      destruct (feed_all s_end rest); cbn [option_map app]; [rewrite app_assoc|]; reflexivity.
 Qed.
 
 (* THE THEOREM (code level): clear-table, then the codes of any admissible phrase sequence, decode to the data *)
@@ -125,13 +144,26 @@ Theorem lzw_codes_decode ws ks : length ks = length ws -> (forall t, (t < length
   (forall t, (t < length ws)%nat -> code_ok ws t (nth t ks 0)) ->
   feed_all lzw_init (256 :: ks) = Some (concat ws).
 Proof.
-  intros Hl Hne Hc. cbn [feed_all].
-  assert (Eclr : lzw_feed lzw_init 256 = FeedOk [] (mkZ clear_table (Some []) 9)) by reflexivity. rewrite Eclr.
-  destruct ws as [|w ws'].
-  - destruct ks; [reflexivity|discriminate].
-  - destruct ks as [|k ks']; [discriminate|]. cbn [feed_all].
-    destruct (first_ok (w :: ws') k (Hc 0%nat ltac:(cbn; lia))) as (s' & E & HD). rewrite E.
-    rewrite (rest_ok (w :: ws') (length ws') 1 s' ks'); try (cbn in *; lia); try assumption.
-    + cbn [option_map skipn concat app]. reflexivity.
-    + intros t Ht. exact (Hc (S t) ltac:(cbn; lia)).
+  intros Hl Hne Hc. destruct (segment_decodes ws ks lzw_init Hl Hne Hc) as (s_end & H).
+  specialize (H []). rewrite app_nil_r in H. rewrite H. cbn [feed_all option_map]. rewrite app_nil_r. reflexivity.
+Qed.
+
+(* any number of segments, each introduced by a clear-table code (an encoder clears when its table is full) *)
+Definition seg_ok (seg : list (list Z) * list Z) : Prop :=
+  length (snd seg) = length (fst seg) /\ (forall t, (t < length (fst seg))%nat -> phrase (fst seg) t <> []) /\
+  (forall t, (t < length (fst seg))%nat -> code_ok (fst seg) t (nth t (snd seg) 0)).
+Theorem lzw_segments_decode : forall segs s, Forall seg_ok segs ->
+  exists s_end, forall rest, feed_all s (flat_map (fun seg => 256 :: snd seg) segs ++ rest)
+                             = option_map (app (concat (flat_map fst segs))) (feed_all s_end rest).
+Proof.
+  induction segs as [|[ws ks] segs IH]; intros s H.
+  - exists s. intros rest. cbn. destruct (feed_all s rest); reflexivity.
+  - inversion H as [|? ? (Hl & Hne & Hc) Hrest]; subst. cbn [fst snd] in *.
+    destruct (segment_decodes ws ks s Hl Hne Hc) as (s1 & H1).
+    destruct (IH s1 Hrest) as (s_end & H2). exists s_end. intros rest.
+    cbn [flat_map fst snd].
+    replace (((256 :: ks) ++ flat_map (fun seg : list (list Z) * list Z => 256 :: snd seg) segs) ++ rest)
+      with (256 :: ks ++ (flat_map (fun seg : list (list Z) * list Z => 256 :: snd seg) segs ++ rest))
+      by (cbn [app]; rewrite <- !app_assoc; reflexivity).
+    rewrite H1, H2, concat_app. destruct (feed_all s_end rest); cbn [option_map]; [rewrite app_assoc|]; reflexivity.
 Qed.
